@@ -166,6 +166,39 @@ def denote_equal(res, ivs, t1, t2):
     return None
 
 
+def history_probes(ctx, lt, ivs, arr_in, arr_snapshot, case, hist):
+    """metamorphic probes on the real object (tools/HARDENING.md): repeat, arguments are inputs,
+    returned values are owned by the caller"""
+    site = 'Livetime (history probes)'
+    q = np.array([z2f(t) for t in case['queries']], dtype=np.float64)
+    q0 = q.copy()
+    a1, a2 = lt.is_on(q), lt.is_on(q)
+    u1, u2 = lt.get_livetime_upto(q), lt.get_livetime_upto(q)
+    if not (np.array_equal(a1, a2) and np.array_equal(u1, u2)):
+        ctx.violation(site, 'repeated-call-differs', 'is_on / get_livetime_upto called twice with the same argument differ',
+                      case={'ivs': ivs, 'scale': SCALE, 'history': hist}, predicate='result is a function of the current inputs only')
+    if not np.array_equal(q, q0):
+        ctx.violation(site, 'argument-modified', 'query array modified by is_on / get_livetime_upto',
+                      case={'ivs': ivs, 'scale': SCALE, 'history': hist})
+    for kind, t1, t2 in case['windows'][:3]:
+        r1 = lt.get_uptime_intervals_between(as_float_window(t1), as_float_window(t2))
+        keep = r1.copy()
+        if r1.size:
+            r1[...] = -12345.0                     # the caller owns the returned array
+        r2 = lt.get_uptime_intervals_between(as_float_window(t1), as_float_window(t2))
+        if not np.array_equal(keep, r2):
+            ctx.violation(site, 'returned-array-aliases-state', 'writing into the array returned by '
+                          'get_uptime_intervals_between changed a later result',
+                          case={'ivs': ivs, 'window': (kind, t1, t2), 'scale': SCALE, 'history': hist})
+    if not np.array_equal(arr_in, arr_snapshot):
+        ctx.violation(site, 'argument-modified', 'the interval array handed to Livetime was modified',
+                      case={'ivs': ivs, 'scale': SCALE, 'history': hist})
+    got = [(f2z(a), f2z(b)) for a, b in lt.uptime_mjd_intervals_arr.tolist()]
+    if got != list(ivs):
+        ctx.violation(site, 'stored-intervals-changed', 'queries changed the stored up-time intervals',
+                      case={'ivs': ivs, 'scale': SCALE, 'history': hist}, impl=got[:6])
+
+
 def views(ctx, lt, ivs, when, hist):
     """the cheap accessors derived from the interval array; they must describe
     the interval set the object holds NOW (also on a re-used object)"""
@@ -191,6 +224,7 @@ def run_case(ctx, Livetime, get_data_subset, DatasetData, DFRA, case, model_expr
     query) -- no query may remember anything of the earlier set."""
     ivs = case['ivs']
     arr = np.array([[z2f(a), z2f(b)] for a, b in ivs], dtype=np.float64).reshape((len(ivs), 2))
+    arr_snap = arr.copy()
     if reuse is None:
         lt = Livetime(arr)
         ctx.count('object:fresh')
@@ -262,7 +296,9 @@ def run_case(ctx, Livetime, get_data_subset, DatasetData, DFRA, case, model_expr
                           predicate='returns the (possibly empty) intersection')
     # draw_ontimes: full range and each window with positive on-time
     draws = case['draws']
-    for (kind, t1, t2) in [(None, None, None)] + case['windows'][:3]:
+    # the un-windowed draw is made first AND again after the windowed ones (history probe: a
+    # windowed draw must leave nothing behind that a later un-windowed draw sees)
+    for (kind, t1, t2) in [(None, None, None)] + case['windows'][:3] + [(None, None, None)]:
         if kind is None:
             arrz = ivs
         else:
@@ -310,6 +346,7 @@ def run_case(ctx, Livetime, get_data_subset, DatasetData, DFRA, case, model_expr
         exp = DFRA(np.array([(z2f(t), i) for i, t in enumerate(ev)], dtype=[('time', np.float64), ('id', np.int64)]))
         mc = DFRA(np.array([(z2f(t), i) for i, t in enumerate(reversed(ev))], dtype=[('time', np.float64), ('id', np.int64)]))
         data = DatasetData(data_exp=exp, data_mc=mc, livetime=lt.livetime)
+        snap = (exp['time'].copy(), exp['id'].copy(), mc['time'].copy(), mc['id'].copy())
         try:
             (sub, ltsub) = get_data_subset(data, lt, as_float_window(t1), as_float_window(t2))
             kept = [f2z(float(x)) for x in sub.exp['time']]
@@ -328,8 +365,13 @@ def run_case(ctx, Livetime, get_data_subset, DatasetData, DFRA, case, model_expr
             impl_s = ['Err', exc_name(ex)]
             ctx.violation('get_data_subset', 'raises-' + impl_s[1], f'raises for window kind {kind}',
                           case={'ivs': ivs, 'events': ev, 'window': (kind, t1, t2), 'scale': SCALE}, impl=impl_s)
+        now = (data.exp['time'], data.exp['id'], data.mc['time'], data.mc['id'])
+        if not all(np.array_equal(a, b) for a, b in zip(snap, now)):
+            ctx.violation('get_data_subset', 'input-data-modified', 'the dataset handed to get_data_subset was modified',
+                          case={'ivs': ivs, 'events': ev, 'window': (kind, t1, t2), 'scale': SCALE})
         model_exprs.append(f'subset {civs} {zlist(ev)} {zlit(t1)} {zlit(t2)}')
         checks.append(('subset', {'ivs': ivs, 'events': ev, 'window': (kind, t1, t2), 'scale': SCALE}, impl_s))
+    history_probes(ctx, lt, ivs, arr, arr_snap, case, reuse is not None)
     views(ctx, lt, ivs, 'after the queries', reuse is not None)
     return lt
 
